@@ -10,6 +10,15 @@ import tbf
 from tbf import walk, kids, strip, AnalysisBroken
 
 
+class DataDependent(Exception):
+    """the value depends on a condition on the inputs (conditional operator / branch in an inlined helper)"""
+
+    def __init__(self, node, text):
+        Exception.__init__(self, text)
+        self.node = node
+        self.text = text
+
+
 class Block:
     def __init__(self, facts, fn):
         self.facts = facts
@@ -83,6 +92,21 @@ class Block:
             args = tbf.call_args(n)
             if nm in ("Sqrt", "sqrt") and len(args) == 1:
                 return sympy.sqrt(self.eval(args[0]))
+            # helper defined in the library: inline its single return expression
+            cands = [g for g in self.facts.functions if g["name"] == nm and not g.get("inst") and len(g["params"]) == len(args) and tbf.body(g) is not None]
+            if len(cands) == 1:
+                g = cands[0]
+                sub = Block(self.facts, g)
+                for p, a in zip(g["params"], args):
+                    sub.env[p["did"]] = self.eval(a)
+                for st in kids(tbf.body(g)):
+                    if st.get("k") == "ReturnStmt":
+                        return sub.eval(kids(st)[0])
+                    if st.get("k") in ("IfStmt", "SwitchStmt", "WhileStmt", "ForStmt", "DoStmt"):
+                        raise DataDependent(st, "helper %s branches on its arguments (%s)" % (g["qname"], self.facts.ntext(st["c"][0])[:80]))
+                    sub.exec(st)
+        if k == "ConditionalOperator":
+            raise DataDependent(n, "conditional value `%s`" % self.facts.ntext(n)[:100])
         raise AnalysisBroken("%s: expression form not supported by the algebra engine: %s" % (self.facts.loc(n), self.facts.ntext(n)[:80]))
 
     def exec(self, s):
